@@ -44,80 +44,96 @@ def check(prog, rep):
     r1 = rep.rule("R1", "the query enumerates exactly the 27 neighbouring cells", floor=3)
     gn = cells.methods["get_near_cells"].node
     wg = f"pdb2pqr/cells.py:{gn.lineno} (Cells.get_near_cells)"
-    loops = [n for n in ast.walk(gn) if isinstance(n, ast.For) and isinstance(n.iter, ast.Call) and U(n.iter.func) == "range"]
-    prod = [c for c in calls_in(gn) if U(c.func).endswith("product")]
-    keyexpr = [n for n in ast.walk(gn) if isinstance(n, ast.Assign) and isinstance(n.value, ast.Tuple) and len(n.value.elts) == 3
-               and U(n.targets[0]) not in ("cell",)]
-    for s in sorted(sizes):
-        offsets = None
-        if len(loops) >= 3:
-            vals = []
-            for lp in loops[:3]:
-                v = try_fold(lp.iter, {"size": s})
-                vals.append(v)
-            offsets = vals
-            lvars = [U(lp.target) for lp in loops[:3]]
-        elif prod:
-            a = try_fold(prod[0].args[0], {"size": s}) if prod[0].args else None
-            rp = next((try_fold(k.value) for k in prod[0].keywords if k.arg == "repeat"), 1)
-            offsets = [list(a)] * rp if a is not None else None
-            lvars = None
-        ok = offsets is not None and len(offsets) == 3 and all(o is not None and sorted(o) == [-s, 0, s] for o in offsets)
-        r1.add(f"offsets|size={s}", ok, f"offsets per axis for cell size {s}: {offsets}; required [-{s}, 0, {s}] on each of three axes", wg)
-    if keyexpr and len(loops) >= 3:
-        elts = [U(e) for e in keyexpr[0].value.elts]
-        lvars = [U(lp.target) for lp in loops[:3]]
-        base = [U(s.targets[0]) for s in iter_stmts(gn.body) if isinstance(s, ast.Assign) and isinstance(s.value, ast.Subscript) and U(s.value.value) == "cell"]
-        own = len(base) == 3 and sorted(elts) == sorted(f"{b} + {v}" for b, v in zip(base, lvars)) and len(set(lvars)) == 3
-        r1.add("own-axis", own, f"neighbour key {elts}: each loop variable {lvars} is added to its own coordinate {base}", wg)
-    # keys are built from all three coordinates in add_cell and looked up from atom.cell
+    # the query and the methods of the class it calls on self
+    qnodes = [gn]
+    for c in calls_in(gn):
+        if isinstance(c.func, ast.Attribute) and U(c.func.value) == "self" and c.func.attr in cells.methods:
+            qnodes.append(cells.methods[c.func.attr].node)
+    keyt = None
+    for fn in qnodes:
+        for n in ast.walk(fn):
+            if isinstance(n, ast.Tuple) and len(n.elts) == 3 and all(isinstance(e, ast.BinOp) and isinstance(e.op, ast.Add) for e in n.elts):
+                keyt = (fn, n)
+    if keyt is None:
+        raise AnalysisError("get_near_cells: the neighbour key (three sums base + offset) was not found: the query left the recognised shapes")
+    kfn, ktup = keyt
+    bases = [U(e.left) for e in ktup.elts]
+    ovars = [U(e.right) for e in ktup.elts]
+    # what each offset variable iterates over
+    iters = {}
+    for n in ast.walk(kfn):
+        if isinstance(n, ast.For) and isinstance(n.target, ast.Name):
+            iters[n.target.id] = n.iter
+        if isinstance(n, ast.For) and isinstance(n.target, ast.Tuple) and isinstance(n.iter, ast.Call) and U(n.iter.func).endswith("product"):
+            rp = next((try_fold(k.value) for k in n.iter.keywords if k.arg == "repeat"), None)
+            for idx, e in enumerate(n.target.elts):
+                iters[U(e)] = n.iter.args[idx] if rp is None and idx < len(n.iter.args) else n.iter.args[0]
+        if isinstance(n, ast.comprehension) and isinstance(n.target, ast.Name):
+            iters[n.target.id] = n.iter
+    local_defs = {U(st.targets[0]): st.value for st in iter_stmts(kfn.body) if isinstance(st, ast.Assign) and isinstance(st.targets[0], ast.Name)}
+    for s_ in sorted(sizes):
+        offs = []
+        for v in ovars:
+            it = iters.get(v)
+            if isinstance(it, ast.Name) and it.id in local_defs:
+                it = local_defs[it.id]
+            val = try_fold(it, {"size": s_}) if it is not None else None
+            if isinstance(val, tuple):
+                val = list(val)
+            offs.append(val)
+        ok = all(isinstance(o, list) and sorted(o) == [-s_, 0, s_] for o in offs)
+        r1.add(f"offsets|size={s_}", ok, f"offsets per axis for cell size {s_}: {offs}; required [-{s_}, 0, {s_}] on each of three axes", wg)
+    # bases are the three coordinates of the query cell, in order, and the offset variables are distinct
+    base_src = {}
+    for fn in qnodes:
+        for st in iter_stmts(fn.body):
+            if isinstance(st, ast.Assign) and isinstance(st.value, ast.Subscript) and isinstance(st.value.slice, ast.Constant) and isinstance(st.targets[0], ast.Name):
+                base_src[st.targets[0].id] = (U(st.value.value), st.value.slice.value)
+            if isinstance(st, ast.Assign) and isinstance(st.targets[0], ast.Tuple) and len(st.targets[0].elts) == 3 and isinstance(st.value, ast.Name):
+                for idx, e in enumerate(st.targets[0].elts):
+                    base_src[U(e)] = (U(st.value), idx)
+    src_ok = [base_src.get(b, (None, None)) for b in bases]
+    own = len(set(ovars)) == 3 and [i for _, i in src_ok] == [0, 1, 2] and len({c for c, _ in src_ok}) == 1
+    r1.add("own-axis", own, f"neighbour key {[U(e) for e in ktup.elts]}: bases {src_ok}, three distinct offset variables {ovars}", wg)
     ac = cells.methods["add_cell"].node
     ktuple = [n for n in ast.walk(ac) if isinstance(n, ast.Assign) and isinstance(n.value, ast.Tuple) and len(n.value.elts) == 3]
-    r1.add("key-3d", bool(ktuple) and [U(e) for e in ktuple[0].value.elts] == ["x", "y", "z"], "add_cell builds the key from (x, y, z)",
-           f"pdb2pqr/cells.py:{ac.lineno} (Cells.add_cell)")
-    selfskip = [n for n in ast.walk(gn) if isinstance(n, ast.If) and isinstance(n.body[0], ast.Continue)]
+    if not ktuple:
+        raise AnalysisError("add_cell: the (x, y, z) key tuple was not found")
+    selfskip = [n for fn in qnodes for n in ast.walk(fn) if isinstance(n, ast.If) and isinstance(n.body[0], ast.Continue)]
     r1.add("only-self-skipped", len(selfskip) == 1 and U(selfskip[0].test) in ("atom == atom2", "atom2 == atom", "atom is atom2", "atom2 is atom"),
            f"atoms skipped by the query: {[U(s.test) for s in selfskip]}", wg)
+    # the query must read the live cell map: no instance state is written by the query (no memoised neighbourhoods)
+    writes = []
+    for fn in qnodes:
+        for n in ast.walk(fn):
+            if isinstance(n, (ast.Attribute, ast.Subscript)) and isinstance(n.ctx, (ast.Store, ast.Del)) and U(n).startswith("self."):
+                writes.append(f"{fn.name}: {U(n)}")
+            if isinstance(n, ast.Call) and isinstance(n.func, ast.Attribute) and U(n.func.value).startswith("self.") \
+                    and n.func.attr in ("append", "update", "setdefault", "add", "insert", "extend", "pop", "clear"):
+                writes.append(f"{fn.name}: {U(n.func)}")
+    r1.add("query-is-pure", not writes, "the query stores nothing on the cell-map object (results are computed from the live map at query time)"
+           if not writes else f"the query writes instance state ({writes[:2]}): a memoised neighbourhood goes stale when atoms are added, moved or removed", wg)
 
     # ------------------------------------------------------------------ R3 key function
     r3 = rep.rule("R3", "the cell key is a monotone step function: cells at least one cell-size wide, adjacent keys one step apart", floor=2)
     wa = f"pdb2pqr/cells.py:{ac.lineno} (Cells.add_cell)"
-    for axis in "xyz":
-        assigns = [s for s in ac.body if isinstance(s, ast.Assign) and U(s.targets[0]) == axis]
-        if len(assigns) != 2 or U(assigns[0].value) != f"atom.{axis}":
-            r3.bad(f"key|{axis}", f"key computation for {axis} left the recognised shape", wa)
-            continue
-        expr = assigns[1].value
-        # the coordinate may be used only through int(v) and the sign test v < 0
-        uses = [n for n in ast.walk(expr) if isinstance(n, ast.Name) and n.id == axis]
-        legal = True
-        for u in uses:
-            p = parent(u)
-            if isinstance(p, ast.Call) and U(p.func) == "int":
-                continue
-            if isinstance(p, ast.Compare) and U(p) in (f"{axis} < 0", f"{axis} >= 0", f"0 > {axis}", f"0 <= {axis}"):
-                continue
-            legal = False
-        if not legal:
-            r3.bad(f"key|{axis}", f"key for {axis} uses the coordinate other than through int() and a sign test: {U(expr)}", wa)
-            continue
+    comps = [U(e) for e in ktuple[0].value.elts]
+    for axis_i, axis in enumerate("xyz"):
+        comp = ktuple[0].value.elts[axis_i]
+        stmts, var, result = key_code(cells, ac, comp, axis)
         for s in sorted(sizes):
-            # classes: (negative, t) for t <= 0 covers the reals in (t-1, t] (t < 0) or (-1, 0) (t = 0);
-            #          (non-negative, t) for t >= 0 covers [t, t+1).  Listed in increasing order of the reals they cover.
             classes = [(True, t) for t in range(-4 * s, 1)] + [(False, t) for t in range(0, 4 * s + 1)]
-            keys = []
-            for neg, tval in classes:
-                keys.append(_eval_key(expr, axis, neg, tval, s))
+            keys = [_eval_key(stmts, var, result, neg, tval, s) for neg, tval in classes]
             mono = all(a <= b for a, b in zip(keys, keys[1:]))
             runs = [(k, len(list(grp))) for k, grp in itertools.groupby(keys)]
             inner = runs[1:-1]
-            # completeness needs every cell at least one cell-size wide and adjacent cells exactly one key step apart
             widths_ok = all(n >= s for _, n in inner) and all(k % s == 0 for k, _ in runs) and \
                 all(b[0] - a[0] == s for a, b in zip(runs, runs[1:]))
             r3.add(f"key|{axis}:size={s}", mono and widths_ok,
                    f"over the unit classes of the real line the key of {axis} takes values {[k for k, _ in runs][:5]}... "
-                   f"{'monotone' if mono else 'NOT monotone'}, run lengths {sorted(set(n for _, n in inner))} (required >= {s}), key steps {sorted(set(b[0] - a[0] for a, b in zip(runs, runs[1:])))} (required {s}); "
-                   "two points closer than the cell size therefore lie in the same or adjacent cells", wa)
+                   f"{'monotone' if mono else 'NOT monotone'}, run lengths {sorted(set(n for _, n in inner))} (required >= {s}), key steps "
+                   f"{sorted(set(b[0] - a[0] for a, b in zip(runs, runs[1:])))} (required {s}); two points closer than the cell size therefore "
+                   "lie in the same or adjacent cells", wa)
 
     # ------------------------------------------------------------------ R2 typestate
     r2 = rep.rule("R2", "an atom is out of its bucket when moved or deleted, and back in afterwards", floor=10)
@@ -135,40 +151,107 @@ def check(prog, rep):
            f"pdb2pqr/main.py:{nt.lineno} (non_trivial)")
 
 
-def _eval_key(expr, axis, neg, tval, size):
-    """Evaluate the key expression on the class (sign, int(v) = tval): arithmetic on integers only."""
+def key_code(cells, ac, comp, axis):
+    """(statements, coordinate variable, result variable or None) computing one key component from atom.<axis>.
+
+    Recognised: `v = atom.<axis>; v = EXPR(v)` inline in add_cell, or `self.helper(atom.<axis>)` with a straight-line helper
+    (assignments, augmented assignments, sign-test ifs, returns)."""
+    def helper(call):
+        if not (isinstance(call, ast.Call) and isinstance(call.func, ast.Attribute) and U(call.func.value) in ("self", "cls")
+                and call.func.attr in cells.methods and len(call.args) == 1 and U(call.args[0]) == f"atom.{axis}"):
+            return None
+        h = cells.methods[call.func.attr].node
+        params = [a.arg for a in h.args.args if a.arg not in ("self", "cls")]
+        if len(params) != 1:
+            raise AnalysisError(f"cell key helper {h.name} has an unexpected signature")
+        body = [st for st in h.body if not (isinstance(st, ast.Expr) and isinstance(st.value, ast.Constant))]
+        return body, params[0], None
+
+    got = helper(comp)
+    if got:
+        return got
+    if isinstance(comp, ast.Name):
+        assigns = [st for st in ac.body if isinstance(st, ast.Assign) and U(st.targets[0]) == comp.id]
+        if len(assigns) == 1:
+            got = helper(assigns[0].value)
+            if got:
+                return got
+        if len(assigns) == 2 and U(assigns[0].value) == f"atom.{axis}":
+            return [assigns[1]], comp.id, comp.id
+    raise AnalysisError(f"add_cell: the computation of the {axis} key component left the recognised shapes ({U(comp)[:50]})")
+
+
+class _Ret(Exception):
+    def __init__(self, v):
+        self.v = v
+
+
+def _eval_key(stmts, var, result, neg, tval, size):
+    """Evaluate straight-line key code on the class (sign, int(v) = tval): integer arithmetic only; the coordinate itself is
+    never a value (it may appear only under int() and in sign tests)."""
+    env = {"size": size}
+
     def ev(n):
         if isinstance(n, ast.Constant):
             return n.value
+        if isinstance(n, ast.Attribute) and U(n) == "self.cellsize":
+            return size
         if isinstance(n, ast.Name):
-            if n.id == "size":
-                return size
+            if n.id == var and var not in env:
+                raise AnalysisError("cell key: the coordinate is used as a number outside int()/sign test")
+            if n.id in env:
+                return env[n.id]
             raise AnalysisError(f"cell key: free name {n.id}")
-        if isinstance(n, ast.Call) and U(n.func) == "int" and U(n.args[0]) == axis:
+        if isinstance(n, ast.Call) and U(n.func) == "int" and len(n.args) == 1 and U(n.args[0]) == var and var not in env:
             return tval
-        if isinstance(n, ast.Compare):
+        if isinstance(n, ast.Call) and U(n.func) == "int" and len(n.args) == 1:
+            return int(ev(n.args[0]))
+        if isinstance(n, ast.Compare) and len(n.ops) == 1:
             t = U(n)
-            if t in (f"{axis} < 0", f"0 > {axis}"):
+            if var not in env and t in (f"{var} < 0", f"0 > {var}", f"{var} < 0.0"):
                 return neg
-            if t in (f"{axis} >= 0", f"0 <= {axis}"):
+            if var not in env and t in (f"{var} >= 0", f"0 <= {var}", f"{var} >= 0.0"):
                 return not neg
+            a, b = ev(n.left), ev(n.comparators[0])
+            return {ast.Lt: a < b, ast.LtE: a <= b, ast.Gt: a > b, ast.GtE: a >= b, ast.Eq: a == b, ast.NotEq: a != b}[type(n.ops[0])]
         if isinstance(n, ast.IfExp):
             return ev(n.body) if ev(n.test) else ev(n.orelse)
         if isinstance(n, ast.BinOp):
             a, b = ev(n.left), ev(n.right)
-            if isinstance(n.op, ast.Add):
-                return a + b
-            if isinstance(n.op, ast.Sub):
-                return a - b
-            if isinstance(n.op, ast.Mult):
-                return a * b
-            if isinstance(n.op, ast.FloorDiv):
-                return a // b
+            ops = {ast.Add: lambda: a + b, ast.Sub: lambda: a - b, ast.Mult: lambda: a * b, ast.FloorDiv: lambda: a // b, ast.Mod: lambda: a % b}
+            if type(n.op) in ops:
+                return ops[type(n.op)]()
         if isinstance(n, ast.UnaryOp) and isinstance(n.op, ast.USub):
             return -ev(n.operand)
-        raise AnalysisError(f"cell key: expression outside the recognised arithmetic: {U(n)}")
+        if isinstance(n, ast.UnaryOp) and isinstance(n.op, ast.Not):
+            return not ev(n.operand)
+        raise AnalysisError(f"cell key: expression outside the recognised arithmetic: {U(n)[:60]}")
 
-    return ev(expr)
+    def run(block):
+        for st in block:
+            if isinstance(st, ast.Assign) and isinstance(st.targets[0], ast.Name):
+                v = ev(st.value)
+                env[st.targets[0].id] = v
+            elif isinstance(st, ast.AugAssign) and isinstance(st.target, ast.Name):
+                cur = ev(st.target)
+                v = ev(st.value)
+                env[st.target.id] = {ast.Add: cur + v, ast.Sub: cur - v, ast.Mult: cur * v, ast.FloorDiv: cur // v if v else 0}[type(st.op)]
+            elif isinstance(st, ast.If):
+                run(st.body if ev(st.test) else st.orelse)
+            elif isinstance(st, ast.Return):
+                raise _Ret(ev(st.value))
+            elif isinstance(st, ast.Pass):
+                continue
+            else:
+                raise AnalysisError(f"cell key: statement {type(st).__name__} outside the recognised straight-line subset")
+
+    try:
+        run(stmts)
+    except _Ret as r:
+        return r.v
+    if result is not None and result in env:
+        return env[result]
+    raise AnalysisError("cell key: no result computed")
 
 
 # ------------------------------------------------------------------------------------------ typestate
